@@ -338,6 +338,13 @@ class Case:
         finally:
             p.on_process_up = prev
 
+    def ev_join_shutdown(self):
+        """what ResultHandler.finish_at_shutdown does on every round of its drain loop"""
+        try:
+            self.pool._join_exited_workers(shutdown=True)
+        except bp.WorkersJoined:
+            raise WorkersJoinedSeen()
+
     def ev_scan(self, lingers=False):
         p = self.pool
         if p._timeout_handler is None:
@@ -592,6 +599,8 @@ class Case:
                 break                   # the pool may be wedged: stop this history
             except RestartFreqExceeded:
                 exc = 'RestartFreqExceeded'
+            except WorkersJoinedSeen:
+                exc = 'WorkersJoined'
             except Exception as e:      # the call itself raised: an observation, not a crash
                 exc = type(e).__name__
             finally:
@@ -601,6 +610,10 @@ class Case:
 
 
 class Hang(BaseException):
+    pass
+
+
+class WorkersJoinedSeen(Exception):
     pass
 
 
